@@ -247,6 +247,46 @@ func NAME(a int, b int) (res int) {
 	return t.Get(a)
 }
 `))
+	// two loop-invariant builtin calls in opposite arms of an ordered test inside a loop
+	// (both are hoisted to the pre-header; their order there must not follow source order)
+	n = next()
+	out = append(out, tmpl(n, SigIS, true, []string{"hoist-two-arms", "loop-up"}, nil, `func NAME(a int, s string) (res int) {
+	xs := make([]int, a&7, 16)
+	for i := 0; i < `+c("5", "6")+`; i++ {
+		tick()
+		if i >= a&3 {
+			res += len(s) * `+c("2", "3")+`
+		} else {
+			res += cap(xs) + i
+		}
+		if res > i {
+			res -= len(xs)
+		} else {
+			res += len(s) + cap(xs)
+		}
+	}
+	return res
+}
+`))
+	// generic helpers whose constraint admits strings: `+"`+`"+` on type-parameter operands is
+	// concatenation for one instantiation and addition for another
+	n = next()
+	out = append(out, tmpl(n, SigSS, true, []string{"generic", "generic-concat"}, []string{"cat" + n, "join" + n}, `func catNAME[T ~string | ~int](x T, y T) T {
+	return `+c("x + y", "y + x")+`
+}
+
+func joinNAME[T ~string | ~int](xs []T) (acc T) {
+	for _, x := range xs {
+		tick()
+		acc = `+c("acc + x", "x + acc")+`
+	}
+	return acc
+}
+
+func NAME(s string, t string) (res string) {
+	return catNAME(s, t) + hs1(joinNAME([]string{s, "-", t})) + rep("z", catNAME(len(s), 2)+joinNAME([]int{1, len(t)}))
+}
+`))
 	n = next()
 	out = append(out, tmpl(n, SigII, true, []string{"generic", "own-generic"}, []string{"gen" + n}, `func genNAME[T ~int | ~int32](x T, y T) T {
 	if x `+c("<", ">")+` y {
@@ -570,6 +610,32 @@ func NAME(a int, b int) (res int) {
 	}
 	out = append(out, mk("hoist-unsafe/len-of-mutated-named-map", SigMI, []string{"map-ops", "named-map", "hoist-unsafe"}, hoistNamed(true), hoistNamed(false)))
 
+	gc := func(e string) string {
+		return `func catNAME[T ~string | ~int](x T, y T) T {
+	return ` + e + `
+}
+
+func NAME(s string, t string) (res string) {
+	return catNAME(s, t) + rep("z", catNAME(len(s), 1))
+}
+`
+	}
+	out = append(out, mk("generic-operand-order/concat", SigSS, []string{"generic", "generic-concat"}, gc("x + y"), gc("y + x")))
+	gj := func(e string) string {
+		return `func joinNAME[T ~string | ~int](xs []T) (acc T) {
+	for _, x := range xs {
+		tick()
+		acc = ` + e + `
+	}
+	return acc
+}
+
+func NAME(s string, t string) (res string) {
+	return joinNAME([]string{s, "-", t}) + rep("y", joinNAME([]int{len(t), 1}))
+}
+`
+	}
+	out = append(out, mk("generic-operand-order/accumulate", SigSS, []string{"generic", "generic-concat"}, gj("acc + x"), gj("x + acc")))
 	fl := func(op, swap string) string {
 		x, y := "1", "2"
 		if swap == "swap" {
